@@ -14,23 +14,42 @@ package document
 // The string / key / service lists decoded from a JSON value are functions of that (interface) value: JSON arrays
 // inside documents are never mutated in place, the composer only builds new ones (assumption, see DESIGN.md C17).
 //@ spec strArr(e any) []string
+// verified: the decoded list has at most the entries of the JSON array and, when every entry has the expected dynamic
+// type, exactly those entries in order; assumed (`assumes`): it is a function of the value (see above)
 //@ func StringArray
-//@   trusted
-//@   ensures result == strArr(entry) && allocated(result)
+//@   loop 1
+//@     invariant len(result) <= _k
+//@     invariant (forall i int :: 0 <= i && i < _k ==> isType(entries[i], "string")) ==> len(result) == _k && (forall i int :: 0 <= i && i < _k ==> result[i] == unbox(entries[i], "string"))
+//@   ensures !isType(entry, "[]any") ==> len(result) == 0
+//@   ensures isType(entry, "[]any") ==> len(result) <= len(unbox(entry, "[]any"))
+//@   ensures isType(entry, "[]any") && (forall i int :: 0 <= i && i < len(unbox(entry, "[]any")) ==> isType(unbox(entry, "[]any")[i], "string")) ==> len(result) == len(unbox(entry, "[]any")) && (forall i int :: 0 <= i && i < len(result) ==> result[i] == unbox(unbox(entry, "[]any")[i], "string"))
+//@   assumes result == strArr(entry) && allocated(result)
 //@ spec pkArr(e any) []PublicKey
 //@ spec svcArr(e any) []Service
 //@ spec idOf(m map[string]any) string
 //@ func ParsePublicKeys
-//@   trusted
-//@   ensures result == pkArr(entry) && allocated(result)
+//@   loop 1
+//@     invariant len(result) <= _k
+//@     invariant (forall i int :: 0 <= i && i < _k ==> isType(typedEntry[i], "map[string]any")) ==> len(result) == _k && (forall i int :: 0 <= i && i < _k ==> result[i] == unbox(typedEntry[i], "map[string]any"))
+//@   ensures !isType(entry, "[]any") ==> len(result) == 0
+//@   ensures isType(entry, "[]any") ==> len(result) <= len(unbox(entry, "[]any"))
+//@   ensures isType(entry, "[]any") && (forall i int :: 0 <= i && i < len(unbox(entry, "[]any")) ==> isType(unbox(entry, "[]any")[i], "map[string]any")) ==> len(result) == len(unbox(entry, "[]any")) && (forall i int :: 0 <= i && i < len(result) ==> result[i] == unbox(unbox(entry, "[]any")[i], "map[string]any"))
+//@   assumes result == pkArr(entry) && allocated(result)
 //@ func ParseServices
-//@   trusted
-//@   ensures result == svcArr(entry) && allocated(result)
+//@   loop 1
+//@     invariant len(result) <= _k
+//@     invariant (forall i int :: 0 <= i && i < _k ==> isType(typedEntry[i], "map[string]any")) ==> len(result) == _k && (forall i int :: 0 <= i && i < _k ==> result[i] == unbox(typedEntry[i], "map[string]any"))
+//@   ensures !isType(entry, "[]any") ==> len(result) == 0
+//@   ensures isType(entry, "[]any") ==> len(result) <= len(unbox(entry, "[]any"))
+//@   ensures isType(entry, "[]any") && (forall i int :: 0 <= i && i < len(unbox(entry, "[]any")) ==> isType(unbox(entry, "[]any")[i], "map[string]any")) ==> len(result) == len(unbox(entry, "[]any")) && (forall i int :: 0 <= i && i < len(result) ==> result[i] == unbox(unbox(entry, "[]any")[i], "map[string]any"))
+//@   assumes result == svcArr(entry) && allocated(result)
 // the id of a key / service object is read from the object itself; key and service objects are not mutated by the
 // composer (it replaces whole objects), so the id is treated as a function of the object reference
+// (assumed part: `assumes`). What IS verified: the id is the string stored under "id", unchanged (no case folding, trimming
+// or defaulting), and "" when there is none.
 //@ func (PublicKey).ID
-//@   trusted
-//@   ensures result == idOf(pk)
+//@   ensures result == cond(isType(pk["id"], "string"), unbox(pk["id"], "string"), "")
+//@   assumes result == idOf(pk)
 //@ func (Service).ID
-//@   trusted
-//@   ensures result == idOf(s)
+//@   ensures result == cond(isType(s["id"], "string"), unbox(s["id"], "string"), "")
+//@   assumes result == idOf(s)
